@@ -9,38 +9,74 @@
 (* every step.  MCExtensions enumerates every operation script up to a     *)
 (* bounded depth; the scripts are replayed on real messages of every       *)
 (* flavour and slot mapping.                                               *)
+(*                                                                         *)
+(* The LATE-BOUND slot (constant Late): with the v1-style APIs (gogo and   *)
+(* legacy google-v1) a message may be decoded before the descriptor of one *)
+(* of its extensions is known; the field is then held in encoded form and  *)
+(* decoded by the first Get.  The representation (raw / decoded) is part   *)
+(* of the state because the code paths differ (ClearAllExtensions has to   *)
+(* remove a field that was never decoded), but no observation may depend   *)
+(* on it: Has, the marshaled bytes and Range see the extension in both     *)
+(* representations.  "arrive" is the message coming off the wire, so it    *)
+(* can only be the first step of a script.                                 *)
+(* LateDecodes = FALSE is the legacy google-v1 flavour as found: the       *)
+(* runtime's late decoding goes through the message's generated Unmarshal  *)
+(* method, which does not know the extension, so a Get that meets the      *)
+(* encoded form reports "missing" and the field stays encoded.             *)
 (***************************************************************************)
 EXTENDS Integers, Sequences, FiniteSets, TLC
 
-CONSTANTS Slots, Vals, Depth
+CONSTANTS Slots, Vals, Depth, Late, LateDecodes
 None == 0
 
-VARIABLES ext, hist
-vars == <<ext, hist>>
+VARIABLES ext, lv, lraw, hist
+vars == <<ext, lv, lraw, hist>>
 
-Init == ext = [s \in Slots |-> None] /\ hist = <<>>
+Init == ext = [s \in Slots |-> None] /\ lv = None /\ lraw = FALSE /\ hist = <<>>
 
 Apply(x, op) == CASE op[1] = "set"      -> [x EXCEPT ![op[2]] = op[3]]
                   [] op[1] = "clear"    -> [x EXCEPT ![op[2]] = None]
                   [] op[1] = "clearall" -> [s \in Slots |-> None]
                   [] OTHER -> x
+\* the late-bound slot: <<value, raw>>
+ApplyLate(l, op) == CASE op[1] = "arrive"    -> <<op[3], TRUE>>
+                      [] op[1] = "getlate"   -> <<l[1], l[2] /\ ~LateDecodes>>   \* the first Get decodes (the value is unchanged) - unless
+                                                                            \* the flavour cannot (LateDecodes = FALSE, see below)
+                      [] op[1] = "setlate"   -> <<op[3], FALSE>>
+                      [] op[1] = "clearlate" -> <<None, FALSE>>
+                      [] op[1] = "clearall"  -> <<None, FALSE>>
+                      [] OTHER -> l
 
 Ops == { <<"set", s, v>> : s \in Slots, v \in Vals } \cup { <<"clear", s, 0>> : s \in Slots } \cup { <<"clearall", 0, 0>> }
+LateOps == IF Late THEN { <<"getlate", 0, 0>>, <<"clearlate", 0, 0>>, <<"setlate", 0, 2>> } ELSE {}
+FirstOps == IF Late THEN { <<"arrive", 0, 1>> } ELSE {}
 
 Next == /\ Len(hist) < Depth
-        /\ \E op \in Ops : ext' = Apply(ext, op) /\ hist' = Append(hist, op)
+        /\ \E op \in Ops \cup LateOps \cup (IF hist = <<>> THEN FirstOps ELSE {}) :
+              /\ ext' = Apply(ext, op)
+              /\ LET l == ApplyLate(<<lv, lraw>>, op) IN lv' = l[1] /\ lraw' = l[2]
+              /\ hist' = Append(hist, op)
 Spec == Init /\ [][Next]_vars
 
 \* the observations a message in abstract state x has to show
 Has(x, s)   == x[s] # None
 RangeOf(x)  == { s \in Slots : x[s] # None }
+HasLate     == lv # None                       \* whatever the representation
 
 \* model-level sanity (what the trace specification relies on)
 RECURSIVE Replay(_, _)
 Replay(x, h) == IF h = <<>> THEN x ELSE Replay(Apply(x, Head(h)), Tail(h))
-StateIsReplay   == ext = Replay([s \in Slots |-> None], hist)
-ClearAllEmpties == (hist # <<>> /\ hist[Len(hist)][1] = "clearall") => RangeOf(ext) = {}
+RECURSIVE ReplayLate(_, _)
+ReplayLate(l, h) == IF h = <<>> THEN l ELSE ReplayLate(ApplyLate(l, Head(h)), Tail(h))
+StateIsReplay   == ext = Replay([s \in Slots |-> None], hist) /\ <<lv, lraw>> = ReplayLate(<<None, FALSE>>, hist)
+ClearAllEmpties == (hist # <<>> /\ hist[Len(hist)][1] = "clearall") => (RangeOf(ext) = {} /\ ~HasLate)
 LastSetWins     == (hist # <<>> /\ hist[Len(hist)][1] = "set") => ext[hist[Len(hist)][2]] = hist[Len(hist)][3]
+\* raw only ever means "arrived and not yet read, set or cleared"; a raw slot always has a value
+RawIsArrived    == lraw => (lv # None /\ hist # <<>> /\ hist[1][1] = "arrive"
+                            /\ \A i \in 2..Len(hist) : hist[i][1] \notin ({"setlate", "clearlate", "clearall"} \cup IF LateDecodes THEN {"getlate"} ELSE {}))
+\* the late slot and the declared slots do not interfere (only ClearAll touches both)
+LateIndependent == \A i \in 1..Len(hist) : hist[i][1] \in {"arrive", "getlate", "setlate", "clearlate"} =>
+                      Replay([s \in Slots |-> None], SubSeq(hist, 1, i)) = Replay([s \in Slots |-> None], SubSeq(hist, 1, i - 1))
 
 \* script emission (generator configuration only): every maximal history, once
 EmitScripts == Len(hist) = Depth => PrintT(<<"SCRIPT", hist>>)
